@@ -1,7 +1,7 @@
 """C04 - Deterministic simulation solves the model's rate equations."""
 import os
 CONTRACT_MODULES = ['simulator_deterministic', 'simulator_entry', 'simulator_derivative', 'simulator_ssa', 'simulator_interfaces', 'types_propensities', 'types_model_shapes']
-SPEC_MODULES = ['functions', 'dep_stubs']
+SPEC_MODULES = ['functions', 'dep_stubs', 'sympy_stub']
 LEVEL = 'proof'
 ASSUMPTIONS = [
     'scipy.integrate.odeint (LSODA): returns y with y[i] ~ phi(T[i]) within (atol, rtol) for the right-hand side it is given, calls it only as rhs(state, t), tolerates the in-place rule application, and reports failure in full_output["message"] -- ASSUMED contract on the dependency; the clause "agrees with the exact solution within the integrator\'s tolerance" is proved modulo it',
